@@ -492,7 +492,23 @@ def queue(ctx):
                         rep.ok('Q1', '%s@%s' % (n, f.line(i)), 'on every success path the fresh node is linked into the ring' +
                                (' (paths that exhaust a ring walk of idx < num_ steps are excluded: ring length = num_ by rule Q5)' if ex else ''), loc=loc)
                     else:
-                        rep.bad('Q1', '%s@%s' % (n, f.line(i)), 'a success path returns the fresh node without linking it', loc=loc, key='%s: new/link pairing' % n)
+                        # a path that skips the link because a look-up helper returned null is outside what this path rule can decide
+                        helper = None
+                        for b_ in f.blocks:
+                            t_ = b_.term
+                            if t_.op != 'br' or len(t_.x['labels']) != 2 or t_.ops[0].k != 'reg':
+                                continue
+                            d_ = f.defs.get(t_.ops[0].v)
+                            if d_ is None or d_.op != 'icmp' or not any(o.k == 'null' for o in d_.ops):
+                                continue
+                            for o in d_.ops:
+                                src = f.defs.get(path.strip_casts(f, o).v) if o.k == 'reg' and path.strip_casts(f, o).k == 'reg' else None
+                                if src is not None and src.op == 'call' and effects.callee_name(src) not in ('a_que_new_', 'a_que_die_', None):
+                                    helper = effects.callee_name(src)
+                        if helper:
+                            rep.unk('Q1', '%s@%s' % (n, f.line(i)), 'whether the fresh node is linked depends on the result of %s(), which this path rule does not follow' % helper, loc=loc)
+                        else:
+                            rep.bad('Q1', '%s@%s' % (n, f.line(i)), 'a success path returns the fresh node without linking it', loc=loc, key='%s: new/link pairing' % n)
     # ---- Q5: num_ is modified only in a_que_new_ (+1) and a_que_die_ (-1), ctor/dtor excepted
     numidx = field_index(m, 'a_que', 'num_')
     q5seen = set()
@@ -572,11 +588,12 @@ def q6(ctx, fns, m, numidx):
                 continue
             x, y = d.ops
             pred = d.x['pred']
-            if pred == 'ugt':
-                x, y, pred = y, x, 'ult'
+            if y.k == 'reg' and y.v == idx and not (x.k == 'reg' and x.v == idx):
+                # num_ > idx, num_ <= idx: bring idx to the left
+                x, y, pred = y, x, {'ugt': 'ult', 'ult': 'ugt', 'uge': 'ule', 'ule': 'uge'}.get(pred, pred)
             taken = f.bmap[t.x['labels'][0]]
             if pred == 'uge':     # idx >= num_ -> the false edge is the guard
-                x, y, pred = x, y, 'ult'
+                pred = 'ult'
                 taken = f.bmap[t.x['labels'][1]]
             if pred != 'ult' or not (x.k == 'reg' and x.v == idx):
                 continue
@@ -954,7 +971,9 @@ def q8(ctx, fns, m):
         ws = [w for w in walks(f) if w['cnt'] is not None]
         probs = []
         if len(ws) != 1:
-            probs.append('expected one positional walk, found %d' % len(ws))
+            # the walk lives somewhere else (a helper was extracted) or was restructured: nothing to compare, no verdict
+            rep.unk('Q8', n, 'expected one positional walk in the function itself, found %d' % len(ws), loc=f.loc(f.entry.instrs[0]))
+            continue
         else:
             w = ws[0]
             if w['start'] != 0 or w['adv'] != 0:
@@ -1066,12 +1085,17 @@ def q10(ctx, fns, lk):
             dom = QDom()
             it = symx.Interp(dom, lk, inline=lambda n_: n_ not in ('a_que_new_', 'a_que_die_'))
             idx = sp.Symbol('idx', integer=True, nonnegative=True)
-            env0 = {itp[0].res: Ptr(at, 0), cnp[0].res: idx}
-            # values defined before the loop: the fresh node of insert
-            for i in fn.instrs():
-                if i.op == 'call' and i.x.get('callee') is not None and i.x['callee'].k == 'global' and i.x['callee'].v == 'a_que_new_' and i.res:
-                    env0[i.res] = Ptr('N', 0)
             try:
+                # values defined in front of the walk (the fresh node of insert, a hoisted sentinel address ...): run the code
+                # before the loop on the same heaplet and keep its environment; the count is whatever lets the walk start
+                st0 = h.state()
+                ro0, _ = it.run_region(fn, [Ptr('ctx', 0), idx], fn.entry, {}, [header], st=st0)
+                ro0 = [x_ for x_ in ro0 if x_[1] is header]
+                if not ro0:
+                    raise Unsupported('no path reaches the walk')
+                env0 = dict(ro0[0][0].env)
+                env0[itp[0].res] = Ptr(at, 0)
+                env0[cnp[0].res] = idx
                 ro, rets = it.run_region(fn, [Ptr('ctx', 0), idx], header, env0, [header], st=h.state())
             except Unsupported as e:
                 probs.append('ring %s at %s: %s' % (r, at, e))
@@ -1128,8 +1152,13 @@ def _cmp_trace(pc):
         if not isinstance(c, alg.Cond):
             continue
         a, b = sp.sympify(c.a), sp.sympify(c.b)
+        rel = c.rel()
+        if b.is_Symbol and str(b).startswith('cmp[') and a == 0:
+            # 0 < cmp(..) is cmp(..) > 0
+            a, b = b, a
+            rel = {'<': '>', '<=': '>=', '>': '<', '>=': '<='}.get(rel, rel)
         if a.is_Symbol and str(a).startswith('cmp[') and b == 0:
-            out.append(_canon_cmp(str(a)[4:-1], c.rel()))
+            out.append(_canon_cmp(str(a)[4:-1], rel))
     return out
 
 
